@@ -28,7 +28,7 @@ ASSUMPTIONS = [
 ]
 REPORT_COUNTERS = ["graphs", "node_calls", "trees_compared", "graphs_depth2_inherited_walker",
                    "override_under_inherited_walker", "selfname_walkers", "recurse_sites_run", "late_modifications_applied", "trees_compared_after_late_change",
-                   "registrations_made_during_a_call"]
+                   "registrations_made_during_a_call", "registrations_failed_and_undone_during_a_call"]
 
 INPUTS = [
     ["v", 1], ["v", "s"],
@@ -112,6 +112,8 @@ def _gen_method(rng, mid):
     if kind == "ondemand":
         # the method it registers on the function being called, the first time it runs
         ms["extra"] = {"mid": mid + 5000, "t": rng.choice(["int", "str", "float", "bytes", "bool"]), "kind": "leaf", "prio": 0}
+        if rng.random() < 0.35:
+            ms["extra"]["bad"] = True      # the registration fails to build; it is caught and undone, the walk goes on
     return ms
 
 
@@ -193,6 +195,7 @@ def check_case(spec, res):
                                   observed={"node": i, "input": T.vname(vx), "got": repr(got)[:200]},
                                   acceptable=repr(exp)[:200])
     res.count("registrations_made_during_a_call", g.ondemand_applied)
+    res.count("registrations_failed_and_undone_during_a_call", g.ondemand_failed)
     g.cleanup()
 
 
